@@ -188,10 +188,19 @@ class C11(Machine):
         if op in ("append", "insert", "setitem"):
             t = self._foreign_tree(st)
             items = self._items([t])
+            kw = {}
+            if st["strategy"] == "migrate" and st["j"] % 4 == 0 and op != "setitem":
+                # a caller-supplied memo (documented keyword): one foreign taxon whose label the list's namespace does not know
+                # yet is mapped to a Taxon of the caller's making, which has to become a member like any other
+                known = set((x.label or "").lower() for x in L.taxon_namespace)
+                cands = [nd.taxon for nd in rawtree.raw_nodes(t) if nd.taxon is not None and (nd.taxon.label or "").lower() not in known]
+                if cands:
+                    kw["taxon_mapping_memo"] = {cands[0]: dendropy.Taxon(label=cands[0].label)}
+                    rec.probe("caller_supplied_memo")
             if op == "append":
-                L.append(t, taxon_import_strategy=st["strategy"])
+                L.append(t, taxon_import_strategy=st["strategy"], **kw)
             elif op == "insert":
-                L.insert(st["i"] % (len(L) + 1), t, taxon_import_strategy=st["strategy"])
+                L.insert(st["i"] % (len(L) + 1), t, taxon_import_strategy=st["strategy"], **kw)
             else:
                 if len(L) == 0:
                     return "skip"
